@@ -41,13 +41,16 @@ TRUSTED = [
     "from Model/Fnds.v and Model/Selection.v (FndsProofs.fnds_rank, SelectionProofs.truncate_spec / truncate_total), for every "
     "crowding-distance function and every iteration order of the set; in the correspondence `select` is the recorded result of "
     "the real nondominated_truncate, and the harness re-applies the real selector to (offspring + parents) for every transition",
-    "PrimFloat primitives appear only in the driver (Run/C09Run.v), not under the theorems",
+    "PrimFloat primitives appear only in the driver (Run/C09Run.v), not under the 17 property theorems (all closed under the global "
+    "context); the translated individual_init_gen_eq_model (binary64 instance of Model/Job.v fresh) prints PrimFloat.float, "
+    "whitelisted by `axioms_ok` of GenProofs/specs/IndividualInitGen.json",
 ]
 ASSUMPTIONS = [
     "N >= 2, G >= 1; serial evaluation (max_processes = 1); the initial generator returns N vectors",
     "no design fails 5 times in a row (Job.evaluate would raise) and generate's while loop terminates (finite candidate stream)",
     "H_fresh: after transient failures the evaluated offspring of a generation are still pairwise different designs "
-    "(the replacement vector drawn by gen_vector does not repeat another offspring: a probability-one event); automatic without failures",
+    "(the replacement vector drawn by gen_vector does not repeat another offspring: a probability-one event for continuous parameters, not on a coarse `precision` grid); "
+    "automatic without failures",
     "H_same_veq: two designs merged by set() are == (same hash and Individual.__eq__, symmetric for equal-length vectors, C20); "
     "RunsCompose additionally: the key equality is symmetric (H_same_sym), the observed set order is a permutation of the "
     "representatives (H_order, the oracle validity condition of C03), all cost vectors have the same number of objectives",
@@ -621,7 +624,11 @@ LEVEL_TEXT = ("Machine-checked Coq theorems over state-machine models of Genetic
 LEVEL_NOTE = ("The sorter + truncation enters the NSGA-II theorems of Props/C09.v through named hypotheses (H_select_len, "
               "H_select_nodup, H_select_incl, H_select_elitist, H_front_rank); Proofs/RunsCompose.v proves them for the selector "
               "composed of the C02 model (Fnds.fnds) and the C03 model (Selection.truncate) and restates bookkeeping and elitism "
-              "without them (remaining premises there: set() key equality is symmetric and implies ==, the set order is a "
-              "permutation of the representatives, cost vectors have one length). H_fresh (replacement vectors after a failure do not repeat another offspring), H_same_veq (C20) and, for "
-              "elitism of merged duplicates, H_same_cost (deterministic objective) are explicit hypotheses. Variation operators and the "
-              "objective are tapes. Correspondence is sampled; the theorems are unbounded.")
+              "without them (remaining premises there: the coordinate order is a strict weak order (SWO ltb), == is reflexive "
+              "(H_veq_refl), set() key equality is symmetric (H_same_sym) and implies == (H_same_veq), the set order is a "
+              "permutation of the representatives (H_order), cost vectors have one length (okc_m), plus H_fresh and, for elitism, "
+              "det_pool as in Props/C09.v). H_fresh (premise `Forall fresh_tr (s_trace st)`: replacement vectors after a failure do "
+              "not repeat another offspring), H_same_veq (C20) and, for elitism of merged duplicates, H_same_cost (premise `det_pool`: "
+              "deterministic objective) are explicit hypotheses, not monitored per run. Variation operators and the objective are tapes. "
+              "In the correspondence the NSGA-II selector is a recorded table, not the composed model selector. Correspondence is "
+              "sampled; the theorems are unbounded.")
